@@ -149,6 +149,55 @@ theorem readers_concat (p₁ p₂ : Program) (t : String) :
   rw [List.find?_append]
   cases List.find? (fun n => n.title == t) p₁ <;> rfl
 
+
+/-! ### whole traces: every path, every length -/
+
+/-- a run of the flat semantics over a sequence of arguments of `Next` -/
+inductive FlatRun (env : Env σ) (mk : Markup π μ) (p : Program) :
+    Flat σ π → List Nat → List (Outcome (Elem μ)) → Flat σ π → Prop where
+  | nil (s : Flat σ π) : FlatRun env mk p s [] [] s
+  | cons (s s₁ s₂ : Flat σ π) (c : Nat) (cs : List Nat) (f : Nat) (o : Outcome (Elem μ)) (outs : List (Outcome (Elem μ))) :
+      s.next env mk p f c = (s₁, .out o) → FlatRun env mk p s₁ cs outs s₂ → FlatRun env mk p s (c :: cs) (o :: outs) s₂
+
+/-- a run of the machine with a given fuel per call; `none` if some call runs out of fuel -/
+def run (env : Env σ) (mk : Markup π μ) (p : Program) (f : Nat) : R σ π → List Nat → Option (List (Outcome (Elem μ)) × R σ π)
+  | r, [] => some ([], r)
+  | r, c :: cs =>
+    match r.next env mk p f c with
+    | (r₁, .out o) => (match run env mk p f r₁ cs with
+        | some (outs, r₂) => some (o :: outs, r₂)
+        | none => none)
+    | (_, .fuel) => none
+
+/-- C01 for whole traces: for every program, every sequence of arguments of `Next` of every length and every fuel, the
+sequence of elements (lines, option groups, end, errors, with the node each is attributed to) returned by the machine is
+a run of the flat sequential semantics from the abstraction of the start state, and the final states correspond -/
+theorem run_refines_flat (env : Env σ) (mk : Markup π μ) (p : Program) (f : Nat) :
+    ∀ (cs : List Nat) (r r' : R σ π) (outs : List (Outcome (Elem μ))),
+      run env mk p f r cs = some (outs, r') → FlatRun env mk p r.abs cs outs r'.abs
+  | [], r, r', outs, h => by
+    simp only [run, Option.some.injEq, Prod.mk.injEq] at h
+    obtain ⟨h1, h2⟩ := h
+    subst h1 h2
+    exact .nil _
+  | c :: cs, r, r', outs, h => by
+    simp only [run] at h
+    cases hn : r.next env mk p f c with
+    | mk r₁ res =>
+      cases res with
+      | fuel => simp [hn] at h
+      | out o =>
+        simp only [hn] at h
+        cases hr : run env mk p f r₁ cs with
+        | none => simp [hr] at h
+        | some pr =>
+          obtain ⟨outs₁, r₂⟩ := pr
+          simp only [hr, Option.some.injEq, Prod.mk.injEq] at h
+          obtain ⟨h1, h2⟩ := h
+          subst h1 h2
+          obtain ⟨f', hf'⟩ := Ysgo.next_refines_flat env mk p f r r₁ c o hn
+          exact .cons _ _ _ c cs f' o outs₁ hf' (run_refines_flat env mk p f cs r₁ r₂ outs₁ hr)
+
 /-- non-vacuity of the refinement: a concrete two-level program state on which `micro` performs a real flat step -/
 example :
     let r : R Unit Unit := { d := { cur := "n", w := ⟨(), default⟩, ms := () },
